@@ -335,6 +335,45 @@ func c05R4(c *Ctx, rule string) {
 		}
 	})
 	c.Check(lenBytes && payload, rule, "record = prefix ‖ byte(len>>8) ‖ byte(len&0xff) ‖ payload", c.atFn(w), "append(hi, lo) then append(in...)", fmt.Sprintf("length bytes from len(in) found=%v, payload appended=%v", lenBytes, payload))
+	// the prefix survives: every value stored into the pooled cell is built on the pooled buffer itself
+	// (append(*writeBuf, …), (*writeBuf)[:k]) or is a fresh buffer that first receives the pooled prefix
+	derived := func(v ssa.Value) bool {
+		isLoad := func(x ssa.Value) bool {
+			ld, ok := x.(*ssa.UnOp)
+			return ok && ld.Op == token.MUL && ld.X == bufPtr
+		}
+		switch x := v.(type) {
+		case *ssa.Slice:
+			return isLoad(x.X)
+		case *ssa.Call:
+			if calleeName(&x.Call) != "builtin.append" {
+				return false
+			}
+			if isLoad(x.Call.Args[0]) {
+				return true
+			}
+			// append(make([]byte, 0, n), (*writeBuf)[:3]...)
+			if l, ok := constLenOf(x.Call.Args[0]); ok && l == 0 {
+				if sl, ok := x.Call.Args[1].(*ssa.Slice); ok && isLoad(sl.X) {
+					return true
+				}
+			}
+		}
+		return isLoad(v)
+	}
+	okDerived, whyD := true, ""
+	var atD ssa.Instruction
+	allInstrs(w, func(i ssa.Instruction) {
+		if st, ok := i.(*ssa.Store); ok && st.Addr == bufPtr && !derived(st.Val) {
+			okDerived, atD = false, i
+			whyD = "the pooled buffer is replaced by " + Expr(st.Val) + ", which is not built on the pooled buffer: the record prefix (type 23, version 3.3) written once by the pool constructor is lost for this and every later record that reuses the buffer"
+		}
+	})
+	if okDerived {
+		c.OK(rule, "every value stored into the pooled buffer cell is built on the pooled buffer", c.atFn(w), "append(*writeBuf, …) / (*writeBuf)[:3] only")
+	} else {
+		c.Bad(rule, "every value stored into the pooled buffer cell is built on the pooled buffer", c.at(atD), whyD)
+	}
 	for _, at := range AtomsAt(writes[0]) {
 		if at.Kind == "cmp" && at.Op == token.LEQ {
 			if lc, ok := stripConv(at.X).(*ssa.Call); ok && calleeName(&lc.Call) == "builtin.len" && lc.Call.Args[0] == in {
@@ -486,6 +525,72 @@ func c05R5(c *Ctx, rule string) {
 		}
 	})
 	c.Check(zeroErr && eofOK, rule, "full buffer reported as an error, end of message by io.EOF", c.atFn(rd), "read == 0 ⇒ error; err == io.EOF ⇒ message complete", fmt.Sprintf("error on a zero-length read=%v, io.EOF terminates the message=%v: a message larger than the buffer is delivered truncated", zeroErr, eofOK))
+	// path form: a return that may deliver bytes (count not the constant 0) carries a nil error only along edges taken
+	// under err == io.EOF of the message reader; every other way out of the copy loop carries a non-nil error
+	for _, r := range returnsOf(rd) {
+		if len(r.Results) != 2 {
+			continue
+		}
+		if k, isK := intConst(r.Results[0]); isK && k == 0 {
+			continue
+		}
+		if errIsNilAt(r.Results[1], r) == "nonnil" {
+			continue
+		}
+		bad := ""
+		seen := map[ssa.Value]bool{}
+		var walk func(v ssa.Value, atoms []Atom)
+		walk = func(v ssa.Value, atoms []Atom) {
+			if ph, ok := v.(*ssa.Phi); ok {
+				if seen[v] {
+					return
+				}
+				seen[v] = true
+				for k, e := range ph.Edges {
+					pred := ph.Block().Preds[k]
+					var as []Atom
+					for _, g := range GuardsOf(pred) {
+						as = append(as, NormCond(g.Cond, g.Pol))
+					}
+					if ifi, ok := pred.Instrs[len(pred.Instrs)-1].(*ssa.If); ok && pred.Succs[0] != pred.Succs[1] {
+						as = append(as, NormCond(ifi.Cond, pred.Succs[0] == ph.Block()))
+					}
+					walk(e, as)
+				}
+				return
+			}
+			underEOF, nonNil := false, false
+			for _, at := range atoms {
+				if at.Kind != "cmp" {
+					continue
+				}
+				if at.Op == token.EQL && strings.Contains(at.String(), "io.EOF") {
+					underEOF = true
+				}
+				if at.Op == token.NEQ && ((sameValue(at.X, v) && isNilConst(at.Y)) || (sameValue(at.Y, v) && isNilConst(at.X))) {
+					nonNil = true
+				}
+			}
+			switch x := v.(type) {
+			case *ssa.Const:
+				if x.IsNil() && !underEOF {
+					bad = "a nil error leaves the copy loop on an edge that is not under err == io.EOF"
+				}
+				return
+			case *ssa.MakeInterface:
+				return
+			case *ssa.Call:
+				if isCall(x, "errors.New", "fmt.Errorf") {
+					return
+				}
+			}
+			if !nonNil && !underEOF {
+				bad = "the loop is left with " + Expr(v) + " (possibly nil) on an edge that is neither under err == io.EOF nor under err != nil"
+			}
+		}
+		walk(r.Results[1], AtomsAt(r))
+		c.Check(bad == "", rule, "success return of Read only at end of message", c.at(r), "every nil-error edge into this return is under err == io.EOF of the message reader", bad+": a message larger than the caller's buffer is returned truncated without an error and the rest is dropped by the next NextReader")
+	}
 }
 
 func c05R6(c *Ctx, rule string) {
